@@ -96,6 +96,24 @@ def ev(n, env):
                 conj.append(_CMP[type(op)](_int(left), _int(right)))
             left = right
         return _B(And(*conj) if len(conj) > 1 else conj[0])
+    if isinstance(n, ast.Call) and isinstance(n.func, ast.Name) and not n.keywords:
+        args = [ev(a, env) for a in n.args]
+        f = n.func.id
+        if f == "abs" and len(args) == 1:
+            v = _int(args[0])
+            return If(v >= 0, v, -v)
+        if f in ("min", "max") and len(args) >= 2:
+            # builtin min / max over positional arguments: the FIRST of equal extremes is returned (values are equal anyway)
+            out = _int(args[0])
+            for a in args[1:]:
+                a = _int(a)
+                out = If(a < out, a, out) if f == "min" else If(a > out, a, out)
+            return out
+        if f == "bool" and len(args) == 1:
+            return _B(_bool(args[0]))
+        if f == "int" and len(args) == 1:
+            return _int(args[0])
+        raise OutOfSubset("call to %s" % f)
     if isinstance(n, ast.IfExp):
         c = _bool(ev(n.test, env))
         a, b = ev(n.body, env), ev(n.orelse, env)
